@@ -42,6 +42,7 @@ class Scen:
     sched: object = None             # None | ("rp"|"wp", [tids]) with progs in self.progs
     progs: list = field(default_factory=list)  # Level B: (tid, [ops])
     ra: bool = False                 # Level B: runs of releases of one thread are atomic (second comparison)
+    yr: bool = False                 # Level B: a thread pauses after every release (extra scheduling point)
     meta: dict = field(default_factory=dict)
 
     # ---- harness text
@@ -68,6 +69,8 @@ class Scen:
             o.append("unw " + " ".join(map(str, self.unw)))
         if self.ra:
             o.append("ra")
+        if self.yr and not self.ra:
+            o.append("yr")
         if self.sched:
             o.append(f"mode sched {self.sched[0]} " + " ".join(map(str, self.sched[1])))
             if len(self.sched) > 2 and self.sched[2]:
@@ -123,7 +126,10 @@ def scen_coq_b(self, laddr, uaddr):
     progs = dict(self.progs)
     n = max(progs) + 1 if progs else 0
     pl = "; ".join("[" + "; ".join(op_coq(o) for o in progs.get(t, [])) + "]" for t in range(n))
-    return f"mkbs ({base}) {'true' if self.sched and self.sched[0] == 'wp' else 'false'} [{pl}]"
+    wp = 'true' if self.sched and self.sched[0] == 'wp' else 'false'
+    if self.yr and not self.ra:
+        return f"mkbs4 ({base}) {wp} true [{pl}]"
+    return f"mkbs ({base}) {wp} [{pl}]"
 
 
 Scen.coq_b = scen_coq_b
